@@ -258,7 +258,15 @@ func c09Request(rng *rand.Rand, buckets []string, st *c09State) *drv.Req {
 		if len(st.uploads) > 0 {
 			u := st.uploads[rng.Intn(len(st.uploads))]
 			q.Method, q.Path = "GET", "/"+buckets[0]
-			q.Query = drv.Q("uploads", drv.Bare, "key-marker", u.key, "upload-id-marker", u.id, "max-uploads", hostileInts[rng.Intn(12)])
+			id := u.id
+			switch rng.Intn(4) {
+			case 0:
+				// the key of a pending upload with an upload id marker that is no id at all
+				id = gen.Pick(rng, []string{"abc", "1x", " 1", "-1", "0", "+5", "1e3", "0x10", "99999999999999999999999999", "\x00", "١", "1 ", "٣"})
+			case 1:
+				id = st.uploads[rng.Intn(len(st.uploads))].id
+			}
+			q.Query = drv.Q("uploads", drv.Bare, "key-marker", u.key, "upload-id-marker", id, "max-uploads", hostileInts[rng.Intn(12)])
 		}
 	case 3:
 		if len(st.uploads) > 0 {
